@@ -1,5 +1,5 @@
 (* C20 -- block, length and sample accounting. *)
-From Coq Require Import List ZArith QArith Qround Bool.
+From Coq Require Import List ZArith QArith Qround Qabs Bool.
 From SV Require Import Base.PySeq Model.Backend Proofs.Backend.
 From SV Require Import Kernels.Gen20 Proofs.K20.
 Import ListNotations.
@@ -65,6 +65,11 @@ Proof. exact effective_blocks_none. Qed.
 Print Assumptions c20_effective_blocks_error.
 
 (* the accounting expressions of the CURRENT source (Kernels/Gen20.v, regenerated on every run) are the model's *)
+Theorem c20_source_get_num_blocks : forall obs cbw tbin nants nchans bps_ spb_,
+  (0 <= obs)%Q -> (0 < tbin)%Q -> (1 <= nants)%Z -> (1 <= nchans)%Z -> (1 <= bps_)%Z -> (1 <= spb_)%Z -> (Qabs cbw == / tbin)%Q ->
+  src_get_num_blocks obs cbw nants nchans bps_ (spb_ * (nants * nchans * bps_)) = Qfloor (obs / (inject_Z spb_ * tbin))%Q.
+Proof. exact k_get_num_blocks. Qed.
+Print Assumptions c20_source_get_num_blocks.
 Theorem c20_source_kernels : forall c n start spb_ tbin,
   src_bytes_per_sample (npols c) (nbits c) = bps c /\ src_samples_per_block (block_size c) (nants c) (nchans c) (bps c) = spb c /\
   src_total_obs_num_samples n (spb c) (nb c) = total_samples c n /\ src_pktstop start n (spb c) = pktstop c start n /\
